@@ -135,6 +135,22 @@ func genDoc(r *prng) *docInfo {
 		d.vals[name] = a
 		d.arrs = append(d.arrs, arrInfo{name, n, kind})
 	}
+	// a grid: arrays in an array
+	grid := &JV{K: "arr"}
+	for i, rows := 0, 2+r.intn(2); i < rows; i++ {
+		row := &JV{K: "arr"}
+		for k, cols := 0, 1+r.intn(2); k < cols; k++ {
+			v := jNum(strconv.Itoa(50 + r.intn(40)))
+			row.Xs = append(row.Xs, v)
+			p := fmt.Sprintf("grid.%d.%d", i, k)
+			d.vals[p] = v
+			d.ints = append(d.ints, p)
+		}
+		grid.Xs = append(grid.Xs, row)
+	}
+	root.Keys = append(root.Keys, "grid")
+	root.Xs = append(root.Xs, grid)
+	d.vals["grid"] = grid
 	mkArr("a", 1+r.intn(4), "int")
 	mkArr("b", 1+r.intn(3), "str")
 	mkArr("objs", 1+r.intn(3), "obj")
@@ -237,7 +253,39 @@ func (g *pgen) docPath(kind string) (string, bool) {
 	return "jso." + pick(g.r, pool), true
 }
 
+// bracketed renders the numeric segments of a dotted path in index syntax:
+// a.1.0 -> a[1][0], objs.1.id -> objs[1].id
+func bracketed(p string) string {
+	if p == "" || !(p[0] >= 'a' && p[0] <= 'z' || p[0] >= 'A' && p[0] <= 'Z') || strings.ContainsAny(p, "\"'{|(") {
+		return p
+	}
+	segs := strings.Split(p, ".")
+	out := segs[0]
+	for _, s := range segs[1:] {
+		if _, err := strconv.Atoi(s); err == nil && s != "" {
+			out += "[" + s + "]"
+		} else {
+			out += "." + s
+		}
+	}
+	return out
+}
+
 func (g *pgen) source() srcExpr {
+	e := g.source0()
+	if g.r.chance(1, 3) {
+		if b := bracketed(e.text); b != e.text {
+			e.text = b
+			g.count("source path in index syntax a[i]")
+			if strings.Count(b, "[") > 1 {
+				g.count("source path with two index brackets a[i][j]")
+			}
+		}
+	}
+	return e
+}
+
+func (g *pgen) source0() srcExpr {
 	r := g.r
 	for {
 		switch r.intn(14) {
